@@ -1180,9 +1180,11 @@ func (s *Store) streamBackupDB(ctx context.Context, name string, remotePos ltx.P
 	}
 
 	// Check local replication position.
-	// If we haven't written anything yet then try to send data.
+	// If we haven't written anything yet then there is nothing to send. If the
+	// backup has the database nevertheless (a restore that failed half-way
+	// leaves it behind empty) it is ahead of us like any other.
 	localPos := db.Pos()
-	if localPos.IsZero() {
+	if localPos.IsZero() && remotePos.IsZero() {
 		return localPos, nil
 	}
 
